@@ -59,6 +59,16 @@ CHECKS = {
             'Truth for the launch part is what the child itself reports. Double quotes are only used for segments '
             'without a backslash (unspecified otherwise).',
             'DESIGN.md 3/C13'),
+    'C14': ('real fdspawn on a pipe under asyncio + blocking twin on E1',
+            'Hypothesis-generated call histories mixing awaited and blocking calls with generated arrival schedules on a '
+            'real pipe; the chunks each call received are observed through logfile_read and replayed on the blocking '
+            'implementation (differential twin); delivery completeness at every TIMEOUT/EOF; wall-clock bound on awaited timeouts',
+            'After every call the awaited result (index/exception, before, after, match, pending text) must equal what the '
+            'blocking Expecter computes from exactly the chunks the asyncio protocol was given, incl. data arriving between '
+            'awaits, several chunks per loop turn, cuts inside multi-byte characters and EOF with the last data.',
+            'Chunks are observed via logfile_read; pieces are written within a few loop turns, far inside the 0.3 s timeouts. '
+            'Comparison stops after the first EOF.',
+            'DESIGN.md 3/C14'),
     'C07': ('real descriptors with generated read sizes + scripted children (E3)',
             'Hypothesis-generated text x codec x error policy x cut points pushed through real pipe/socketpair/'
             'SocketSpawn/pty-child/Popen-child/asyncio transports; round trip against one-shot incremental decoding; '
@@ -196,7 +206,7 @@ def main():
         },
         'engines': [
             {'name': 'E1', 'path': 'vf/engines/scripted.py, vf/engines/refmodel.py, vf/engines/e1.py',
-             'serves_properties': ['C01', 'C02', 'C03', 'C04', 'C20'],
+             'serves_properties': ['C01', 'C02', 'C03', 'C04', 'C14', 'C20'],
              'kind_free_text': 'scripted transport (SpawnBase subclass playing a generated read script, virtual '
                                'clock) + naive reference model of the expect family + Hypothesis generators'},
             {'name': 'E2', 'path': 'vf/engines/simkernel.py', 'serves_properties': ['C04', 'C05', 'C06'],
